@@ -129,7 +129,13 @@ impl Future for StatusFuture {
       #[cfg(feature = "verif_hooks")]
       crate::verif_sync::yield_point(1);
       self.0.waker.register(cx.waker());
-      Poll::Pending
+      // The source may have terminated between the check above and the
+      // registration; its wake-up would then be lost, so check again.
+      if self.0.is_closed() {
+        Poll::Ready(NormalReturn::new(()))
+      } else {
+        Poll::Pending
+      }
     }
   }
 }
